@@ -66,13 +66,21 @@ theorem runs_execOp (s : St) (op : Op) : (execOp s op).1.runs = s.runs := by
   | getKey k => simp only [execOp]; split <;> rfl
   | getKeys => rfl
   | getKeysWithData => rfl
-  | resetRoutine k => exact (frame_resetKey s k).runs
-  | restartRoutine k => exact (touch_restartKey s k).frame.runs
-  | resetAll =>
+  | resetRoutine k cs =>
+    simp only [execOp]
+    split
+    · exact (frame_resetKey s k).runs
+    · exact rfl
+  | restartRoutine k cs =>
+    simp only [execOp]
+    split
+    · exact (touch_restartKey s k).frame.runs
+    · exact rfl
+  | resetAll cs =>
     simp only [execOp]
     rw [foldl_fst resetAllStep (fun s k => (resetKey s k).1) (fun _ _ => rfl)]
     exact (foldl_frame _ (fun s k => frame_resetKey s k) _ _).runs
-  | restartAll =>
+  | restartAll cs =>
     simp only [execOp]
     rw [foldl_fst restartAllStep (fun s k => (restartKey s k).1) (fun _ _ => rfl)]
     exact (foldl_frame _ (fun s k => (touch_restartKey s k).frame) _ _).runs
@@ -132,13 +140,25 @@ theorem sim_step (s : St) (e : Ev) (s' : St) (ms : M7a) (hR : Sim s ms) (hs : mo
     · split at hs
       · simp at hs; subst hs; exact ⟨ms, rfl, hkd, view_runs_congr (s := s) rfl rfl hv⟩
       · simp at hs
+  | cancelroot =>
+    simp only [step] at hs
+    split at hs
+    · simp at hs; subst hs
+      refine ⟨ms, rfl, hkd, ?_⟩
+      have hk : Keep ({ s with ctx := some 0 } : St) (cancelAll { s with ctx := some 0 }) :=
+        foldl_keep cancelGen (fun s g =>
+          foldl_keep (fun s i => cancelOpt s g (some i)) (fun s i => keep_cancelOpt s g (some i)) _ s) _ _
+      exact view_keep hk (sameBut_cancelAll _).runs (view_runs_congr (s := s) rfl rfl hv)
+    · simp at hs
   | exec id =>
     simp only [step] at hs
     split at hs
     · rename_i op hc
       simp at hs; subst hs
       refine ⟨hkd, ?_⟩
-      exact view_runs_congr (s := (execOp s op).1) rfl rfl (view_keep (keep_execOp s op) (runs_execOp s op) hv)
+      exact view_runs_congr (s := (execOp (preOp s op) op).1) rfl rfl
+        (view_keep (keep_execOp (preOp s op) op) (runs_execOp (preOp s op) op)
+          (view_runs_congr (preOp_fields s op).1 (preOp_fields s op).2.2.2.1 hv))
     · simp at hs
   | ctor k d =>
     simp only [step] at hs
